@@ -69,10 +69,12 @@ def rank_flush_cases(x, t):
 
 
 def spec_flush_ok(res, x, y, t):
-    """res equals |rank_f(x) - rank_f(y)| for one of the admissible tie resolutions (per argument)"""
+    """res equals |rank_f(x) - rank_f(y)| for one of the admissible tie resolutions - the SAME resolution for both
+    arguments (the statement: subnormals collapse *consistently*, and the distance of equal values is zero; a resolution
+    chosen per argument would accept diff_ulp(h, h) == 1 at h = smallest_normal/2 - seeded change C14-m6)"""
     xs = rank_flush_cases(x, t)
     ys = rank_flush_cases(y, t)
-    return z3.Or([res == babs(a - b) for a in xs for b in ys])
+    return z3.Or([res == babs(a - b) for a, b in zip(xs, ys)])
 
 
 def tname(t):
